@@ -5,3 +5,4 @@ open PgmVerif
 #print axioms PgmVerif.C13_parents_adjustment
 #print axioms PgmVerif.C13_parent_adjustment_exact
 #print axioms PgmVerif.C13_do_compose_graph
+#print axioms PgmVerif.C13_do_cpd_parentless
